@@ -175,6 +175,11 @@ fn replay_agg(rep: &mut Report, v: &Value, laws: Option<&Laws3>) {
     // sources: borrowed iterator, owned (consumed), option view
     agg_cell!(rep, v, skey, &e, mp, "Vec<f64>.titer()", vf.titer(), of64, of64);
     agg_cell!(rep, v, skey, &e, mp, "Vec<f64> (owned)", vf.clone(), of64, of64);
+    if !nullfree {
+        // the nulls written as a NaN whose sign bit is set: the same null (Casts.tla NEGNAN)
+        let vn = enc_vec_negnan(&s);
+        agg_cell!(rep, v, skey, &e, mp, "Vec<f64>(nulls as -NaN).titer()", vn.titer(), of64, of64);
+    }
     agg_cell!(rep, v, skey, &e, mp, "Vec<f64>.opt()", vf.opt().titer(), of64, ooptf);
     // sources whose size hint has a lower bound below the number of items (any iterator is a legal
     // source; the thresholds are about VALID OBSERVATIONS, not about what the source announces)
